@@ -16,8 +16,10 @@ import (
 	"fmt"
 	"os"
 	"os/exec"
+	"runtime"
 	"strconv"
 	"strings"
+	"sync"
 	"sync/atomic"
 	"unsafe"
 
@@ -362,6 +364,9 @@ func (r *runner) final() string {
 
 // Exec runs one script line on the real code.
 func Exec(c *hx.Ctx, line string) string {
+	if strings.HasPrefix(line, "stress ") {
+		return execStress(c, line)
+	}
 	parts := strings.Split(line, " | ")
 	if len(parts) < 2 {
 		return "bad-line"
@@ -577,6 +582,235 @@ func schedStr(sched []int) string {
 	return strings.Join(ws, " ")
 }
 
+
+
+// ---------------------------------------------------------------- real-parallel stress (oracle only)
+
+// A stress line runs G REAL goroutines on all Ps against one queue with NO hook installed: the interleaving is
+// neither controlled nor observable, so the model is not consulted (the driver answers "stress not-modelled");
+// the line is judged only by the property oracle from the returned values.  It exists for windows that contain
+// no atomic access (hence no yield site), which the controlled scheduler executes as one step.
+//
+//   stress G=<g> n=<ops per goroutine> mode=pairs|prodcons|mixed round=<r> seed=<s>
+//
+// pairs:    every goroutine does n × (Push(v); Pop())            -> additionally no Pop may return nil
+// prodcons: G/2 producers push n values each, G/2 consumers pop n times each (nil allowed)
+// mixed:    every goroutine does 2n random operations
+// Values are globally unique: v = producer*stressBase + sequence number.
+const stressBase = 10000000
+
+type stressLog struct {
+	pushed int   // number of completed pushes (sequence numbers 1..pushed)
+	popped []int // results of this goroutine's Pops in program order (0 = nil, -1 = not an int)
+}
+
+func execStress(c *hx.Ctx, line string) string {
+	kv := map[string]string{}
+	for _, w := range strings.Fields(line)[1:] {
+		if p := strings.SplitN(w, "=", 2); len(p) == 2 {
+			kv[p[0]] = p[1]
+		}
+	}
+	G, _ := strconv.Atoi(kv["G"])
+	n, _ := strconv.Atoi(kv["n"])
+	seed, _ := strconv.ParseUint(kv["seed"], 10, 64)
+	mode := kv["mode"]
+	if G < 1 || G > 1024 || n < 1 || n > 1000000 || (mode != "pairs" && mode != "prodcons" && mode != "mixed") {
+		return "bad-line"
+	}
+	old := runtime.GOMAXPROCS(runtime.NumCPU())
+	defer runtime.GOMAXPROCS(old)
+	loom.VerifHook = nil
+	q := loom.NewQueue()
+	logs := make([]stressLog, G)
+	start := make(chan struct{})
+	var wg sync.WaitGroup
+	var panics int32
+	for g := 0; g < G; g++ {
+		g := g
+		lg := &logs[g]
+		lg.popped = make([]int, 0, 2*n)
+		rng := hx.NewRng(seed*1000003 + uint64(g))
+		wg.Add(1)
+		go func() {
+			defer wg.Done()
+			defer func() {
+				if e := recover(); e != nil {
+					atomic.AddInt32(&panics, 1)
+				}
+			}()
+			push := func() {
+				q.Push((g+1)*stressBase + lg.pushed + 1)
+				lg.pushed++
+			}
+			pop := func() {
+				switch v := q.Pop().(type) {
+				case nil:
+					lg.popped = append(lg.popped, 0)
+				case int:
+					lg.popped = append(lg.popped, v)
+				default:
+					lg.popped = append(lg.popped, -1)
+				}
+			}
+			<-start
+			switch mode {
+			case "pairs":
+				for i := 0; i < n; i++ {
+					push()
+					pop()
+				}
+			case "prodcons":
+				for i := 0; i < n; i++ {
+					if g%2 == 0 {
+						push()
+					} else {
+						pop()
+					}
+				}
+			default:
+				for i := 0; i < 2*n; i++ {
+					if rng.Bool() {
+						push()
+					} else {
+						pop()
+					}
+				}
+			}
+		}()
+	}
+	close(start)
+	wg.Wait()
+	// final drain by one goroutine through the API
+	var drained []int
+	drainPanic := false
+	func() {
+		defer func() {
+			if e := recover(); e != nil {
+				drainPanic = true
+			}
+		}()
+		for k := 0; k < G*2*n+10; k++ {
+			v := q.Pop()
+			if v == nil {
+				return
+			}
+			if x, ok := v.(int); ok {
+				drained = append(drained, x)
+			} else {
+				drained = append(drained, -1)
+			}
+		}
+	}()
+	// facts about the returned values (judged by the oracle in checklib/c01.py)
+	pushes, nonnil, nils, unknown, dup, order, drainOrder := 0, 0, 0, 0, 0, 0, 0
+	first := ""
+	note := func(format string, a ...any) {
+		if first == "" {
+			first = fmt.Sprintf(format, a...)
+		}
+	}
+	for g := range logs {
+		pushes += logs[g].pushed
+	}
+	seen := map[int]bool{}
+	maxPopped := make([]int, G+1) // per producer: largest sequence number popped during the run
+	valid := func(v int) (int, int, bool) {
+		p, sq := v/stressBase, v%stressBase
+		if v <= 0 || p < 1 || p > G || sq < 1 || sq > logs[p-1].pushed {
+			return 0, 0, false
+		}
+		return p, sq, true
+	}
+	for g := range logs {
+		last := make(map[int]int) // per producer: last sequence number this consumer got
+		for i, v := range logs[g].popped {
+			if v == 0 {
+				nils++
+				if mode == "pairs" {
+					note("goroutine %d: Pop #%d returned nil right after its own Push returned (every goroutine pushes before it pops, so the queue cannot be empty)", g, i+1)
+				}
+				continue
+			}
+			nonnil++
+			p, sq, ok := valid(v)
+			if !ok {
+				unknown++
+				note("goroutine %d popped %d, which was never pushed", g, v)
+				continue
+			}
+			if seen[v] {
+				dup++
+				note("value %d was popped twice", v)
+			}
+			seen[v] = true
+			if sq <= last[p] {
+				order++
+				note("goroutine %d popped %d after %d of the same producer", g, v, p*stressBase+last[p])
+			}
+			last[p] = sq
+			if sq > maxPopped[p] {
+				maxPopped[p] = sq
+			}
+		}
+	}
+	lastD := make(map[int]int)
+	for _, v := range drained {
+		p, sq, ok := valid(v)
+		if !ok {
+			unknown++
+			note("the final drain returned %d, which was never pushed", v)
+			continue
+		}
+		if seen[v] {
+			dup++
+			note("value %d was popped and is still in the queue", v)
+		}
+		seen[v] = true
+		if sq <= lastD[p] || sq <= maxPopped[p] {
+			drainOrder++
+			note("the final drain returned %d although a later value of the same producer had already left the queue", v)
+		}
+		lastD[p] = sq
+	}
+	if lost := pushes - nonnil - len(drained); lost != 0 {
+		for p := 1; p <= G && first == ""; p++ {
+			for sq := 1; sq <= logs[p-1].pushed; sq++ {
+				if !seen[p*stressBase+sq] {
+					note("value %d was pushed (Push returned) but was neither popped nor found by the final drain", p*stressBase+sq)
+					break
+				}
+			}
+		}
+	}
+	np := int(panics)
+	if drainPanic {
+		np++
+	}
+	c.Count("stress_lines(real-parallel, oracle only, not modelled)")
+	c.Stats["stress_operations"] += pushes + nonnil + nils
+	c.Stats["stress_nil_pops"] += nils
+	if first == "" {
+		first = "-"
+	}
+	return fmt.Sprintf("stress G=%d n=%d mode=%s procs=%d pushes=%d popped=%d nil=%d drained=%d unknown=%d dup=%d order=%d drainorder=%d panics=%d first: %s",
+		G, n, mode, runtime.NumCPU(), pushes, nonnil, nils, len(drained), unknown, dup, order, drainOrder, np, first)
+}
+
+func genStress(c *hx.Ctx) {
+	rounds := c.Budget(6, 40)
+	for r := 0; r < rounds; r++ {
+		for _, g := range []int{4, 16, 64} {
+			for _, mode := range []string{"pairs", "prodcons", "mixed"} {
+				n := 48000 / g
+				if mode == "mixed" {
+					n /= 2
+				}
+				c.Emit("stress G=%d n=%d mode=%s round=%d seed=%d", g, n, mode, r, c.Rng.U64()%1000000007)
+			}
+		}
+	}
+}
 
 // ---------------------------------------------------------------- structured schedule classes
 
@@ -858,6 +1092,7 @@ func GenC01(c *hx.Ctx) {
 		}
 	}
 	genLongStall(c)
+	genStress(c)
 	n := c.Budget(3000, 50000)
 	for i := 0; i < n; i++ {
 		prog := randProg(c, 12)
